@@ -10,6 +10,7 @@ import (
 	"errors"
 	"fmt"
 	"io"
+	"math"
 	"os"
 	"os/exec"
 	"path/filepath"
@@ -23,6 +24,7 @@ import (
 
 	"github.com/anishathalye/porcupine"
 	blocks "github.com/ipfs/go-block-format"
+	carv2 "github.com/ipld/go-car/v2"
 	"github.com/ipld/go-car/v2/blockstore"
 	"github.com/ipld/go-car/v2/storage"
 	"github.com/ipld/go-car/v2/storage/deferred"
@@ -50,16 +52,18 @@ type c08Viol struct {
 }
 
 type c08Result struct {
-	Histories    int            `json:"histories"`
-	Ops          int            `json:"ops"`
-	Overlaps     map[string]int `json:"overlaps"`
-	Signatures   []string       `json:"signatures"`
-	Violations   []c08Viol      `json:"violations"`
-	Inconclusive []string       `json:"inconclusive"`
-	Stuck        string         `json:"stuck,omitempty"` // goroutine dump when a history did not finish
-	PorcupineOK  int            `json:"porcupine_ok"`
-	KeysChecked  int            `json:"keys_checked"`
-	Sample       any            `json:"sample,omitempty"`
+	Histories      int            `json:"histories"`
+	Ops            int            `json:"ops"`
+	Overlaps       map[string]int `json:"overlaps"`
+	Signatures     []string       `json:"signatures"`
+	Violations     []c08Viol      `json:"violations"`
+	Inconclusive   []string       `json:"inconclusive"`
+	Stuck          string         `json:"stuck,omitempty"` // goroutine dump when a history did not finish
+	PorcupineOK    int            `json:"porcupine_ok"`
+	KeysChecked    int            `json:"keys_checked"`
+	RefusedBatches int            `json:"refused_batches"` // PutMany calls refused midway (over-long CID)
+	FinalSnapshots int            `json:"final_snapshots"` // histories whose file was compared with its state at the terminal operation's return
+	Sample         any            `json:"sample,omitempty"`
 }
 
 // ---------------------------------------------------------------- child: run histories under -race
@@ -109,6 +113,13 @@ func (s *c08BS) putMany(is []int) error {
 		l = append(l, lab.ToBlock(s.blks[i]))
 	}
 	return s.bs.PutMany(bg, l)
+}
+
+// putManyRefused: a batch whose second block has a CID over MaxIndexCidSize; the batch is refused
+// there, the first block may or may not stay stored.
+func (s *c08BS) putManyRefused(i int) error {
+	long := refcar.Block{Cid: refcar.MakeCidV1(0x55, 0x13, bytes.Repeat([]byte{0x5a}, 120)), Data: []byte("refused: CID over the limit")}
+	return s.bs.PutMany(bg, []blocks.Block{lab.ToBlock(s.blks[i]), lab.ToBlock(long)})
 }
 func (s *c08BS) has(i int) (bool, error) { return s.bs.Has(bg, lab.ToCid(s.blks[i].Cid)) }
 func (s *c08BS) get(i int) ([]byte, error) {
@@ -388,6 +399,7 @@ func c08History(d c08Desc, seed int64, dir string, res *c08Result) ([]c08Op, []c
 		st = &c08DW{dw: dw, mf: mf, blks: blks}
 	}
 
+	var finSnap atomic.Value // []byte: the file as it was when the terminal operation returned success
 	G := []int{2, 4, 8, 16}[r.Intn(4)]
 	opsPer := 3 + r.Intn(8)
 	withFinalize := r.Intn(3) != 0
@@ -417,6 +429,9 @@ func c08History(d c08Desc, seed int64, dir string, res *c08Result) ([]c08Op, []c
 			for i := 0; i < opsPer; i++ {
 				op := c08Op{Client: g, Key: cr.Intn(nkeys), Key2: -1}
 				kinds := []string{"put", "put", "put", "putmany", "has", "has", "get", "get", "getsize", "list", "roots"}
+				if d.Kind == "blockstore" && d.Cfg.MaxCid > 0 {
+					kinds = append(kinds, "putmanyx", "putmanyx")
+				}
 				if d.Kind == "storage" {
 					kinds = []string{"put", "put", "put", "has", "has", "get", "get", "getsize", "roots"}
 				}
@@ -438,6 +453,18 @@ func c08History(d c08Desc, seed int64, dir string, res *c08Result) ([]c08Op, []c
 					op.Key2 = cr.Intn(nkeys)
 					err = st.putMany([]int{op.Key, op.Key2})
 					op.Out = "ok"
+				case "putmanyx":
+					err = bsStore.putManyRefused(op.Key)
+					var tl *carv2.ErrCidTooLarge
+					switch {
+					case err == nil:
+						addV("PutMany/over-long-cid-accepted", "PutMany accepted a block whose CID is over MaxIndexCidSize", nil)
+						op.Out = "ok"
+					case errors.As(err, &tl):
+						op.Out, err = "maybe", nil // refused midway: the first block may have been stored
+					default:
+						op.Out = "ok" // replaced below by closed / err:
+					}
 				case "has":
 					var h bool
 					h, err = st.has(op.Key)
@@ -488,6 +515,10 @@ func c08History(d c08Desc, seed int64, dir string, res *c08Result) ([]c08Op, []c
 						err = bsStore.bs.FinalizeReadOnly()
 					} else {
 						err = st.finalize()
+					}
+					if err == nil {
+						// what the file holds at the moment the terminal operation reports success
+						finSnap.CompareAndSwap(nil, st.fileBytes())
 					}
 					op.Out = "ok"
 				}
@@ -664,6 +695,14 @@ func c08History(d c08Desc, seed int64, dir string, res *c08Result) ([]c08Op, []c
 			if o.Key2 != o.Key {
 				add(o.Key2, o, "put", "ok")
 			}
+		case "putmanyx":
+			if o.Out == "maybe" {
+				res.RefusedBatches++
+				// refused midway: the first block may have taken effect at any time after the call, or never
+				open := o
+				open.Ret = math.MaxInt64 / 2
+				add(o.Key, open, "put", "ok")
+			}
 		case "has":
 			add(o.Key, o, "read", o.Out)
 		case "get", "getsize":
@@ -720,15 +759,29 @@ func c08History(d c08Desc, seed int64, dir string, res *c08Result) ([]c08Op, []c
 		}
 	}
 
+	// ---- a store that reported itself finalized has stopped writing: whatever was still in flight
+	// (a Put blocked in a slow stream, say) either made it into the file before that or not at all
+	if snap, _ := finSnap.Load().([]byte); snap != nil {
+		if now := st.fileBytes(); !bytes.Equal(snap, now) {
+			addV("final-file/changed-after-the-terminal-operation-returned", fmt.Sprintf("the output had %d bytes when Finalize/Close returned success and has %d bytes (first difference at %d) once all clients are done", len(snap), len(now), lab.FirstDiff(snap, now)), nil)
+		}
+		res.FinalSnapshots++
+	}
 	// ---- final file
 	if fin != nil && fin.Out == "ok" {
 		acked := map[int]bool{}
+		maybe := map[int]bool{}
 		for _, o := range ops {
 			if (o.Kind == "put" || o.Kind == "putmany") && o.Out == "ok" {
 				acked[o.Key] = true
 				if o.Kind == "putmany" {
 					acked[o.Key2] = true
 				}
+			}
+		}
+		for _, o := range ops {
+			if o.Kind == "putmanyx" && o.Out == "maybe" {
+				maybe[o.Key] = true
 			}
 		}
 		if d.Kind == "deferred" && len(acked) == 0 {
@@ -758,7 +811,7 @@ func c08History(d c08Desc, seed int64, dir string, res *c08Result) ([]c08Op, []c
 			if n > 1 && !d.Cfg.AllowDup {
 				addV("final-file/duplicate-block", fmt.Sprintf("block %d appears %d times in the finalized file although de-duplication is on", i, n), nil)
 			}
-			if !acked[i] {
+			if !acked[i] && !maybe[i] {
 				// a Put that failed with a closed error must not have been written
 				addV("final-file/unacknowledged-block", "finalized file holds a block whose Put never returned success", nil)
 			}
@@ -910,6 +963,8 @@ func runC08(t *mon.T, raw json.RawMessage) {
 	t.CoverN("ops", res.Ops)
 	t.CoverN("keys-checked-by-porcupine", res.KeysChecked)
 	t.CoverN("keys-linearizable", res.PorcupineOK)
+	t.CoverN("files-compared-with-their-state-at-finalize-return", res.FinalSnapshots)
+	t.CoverN("putmany-batches-refused-midway", res.RefusedBatches)
 	t.CoverN("distinct-interleaving-signatures", len(res.Signatures))
 	for k, n := range res.Overlaps {
 		t.CoverN("overlap:"+k, n)
@@ -923,7 +978,7 @@ func runC08(t *mon.T, raw json.RawMessage) {
 func genC08(g *mon.G) {
 	r := gen.Rand(g.Seed)
 	cfgs := map[string][]lab.Cfg{
-		"blockstore": {{}, {WholeCID: true}, {V1: true}, {DataPad: 5, Sorted: true}},
+		"blockstore": {{}, {WholeCID: true}, {V1: true}, {DataPad: 5, Sorted: true}, {MaxCid: 100}},
 		"storage":    {{}, {V1: true}, {WholeCID: true, IndexPad: 3}},
 		"deferred":   {{V1: true}},
 	}
